@@ -107,6 +107,13 @@ Theorem C12_convert_commutes : forall (price : currency -> currency -> option Z 
 Proof. intros. apply reduce_commutes. apply lot_linear_convert. Qed.
 Print Assumptions C12_convert_commutes.
 
+(* ... and with sums of INVENTORIES (sum() over an Inventory column, e.g. partial sums of a subquery
+   or a user table): units(sum(inv)) = sum(units(inv)), same for cost/value/convert *)
+Theorem C12_linear_commutes_inventories : forall f l, lot_linear f -> Forall wf l ->
+  inv_eqv (reduce f (sum_inv l)) (sum_inv (map (reduce f) l)).
+Proof. exact reduce_commutes_inventories. Qed.
+Print Assumptions C12_linear_commutes_inventories.
+
 (* the hypothesis is the linear one: rate-times-number reducers satisfy it, and over the
    integers every lot-linear reducer is of that shape *)
 Theorem C12_lot_linear_is_rate : forall f, lot_linear f ->
